@@ -286,6 +286,35 @@ fn helmert_case(h: &H, idx: u64, aspect: &str, spec: &HelmertSpec, rng: &mut Rng
         }
     }
 
+    // --- exact mode: with the same angles the two conventions are transposes of each other ---
+    if spec.rotated() && spec.exact {
+        let mut other = HelmertSpec { ..at_epoch(spec, spec.t_epoch) };
+        other.dt = spec.dt;
+        other.dr = spec.dr;
+        other.ds = spec.ds;
+        other.t_obs = spec.t_obs;
+        other.position_vector = !spec.position_vector;
+        let odef = other.def();
+        if let Ok(op2) = ctx.op(&odef) {
+            let g0 = f(&ctx, op2, origin);
+            let mut worst: f64 = 0.0;
+            for j in 0..3 {
+                let mut e = origin;
+                e[j] = big;
+                let ge = f(&ctx, op2, e);
+                for i in 0..3 {
+                    let m2 = (ge[i] - g0[i]) / (scale * big);
+                    worst = worst.max((m2 - m[j][i]).abs());
+                }
+            }
+            h.eval(4);
+            h.max("exact: |M_pv - M_cf^T|", worst, || def.clone());
+            if !(worst <= 1e-11) {
+                viol(h, idx, "conventions-not-transposes/exact", &def, J::obj().set("other_definition", &odef).set("max_element_difference", worst));
+            }
+        }
+    }
+
     // --- alias forms are interchangeable (bit-identical) ------------------------------------
     {
         let mut alias = at_epoch(spec, spec.t_epoch);
